@@ -621,26 +621,23 @@ Section GovProofs.
   Lemma ext_opext st st' : ext st st' -> opext st st'.
   Proof. intros H Hs. destruct (H Hs) as [A B]. split; [exact A | apply sev_sevb; exact B]. Qed.
 
-  Lemma zero_perm_int_ext (st : state) i st' :
-    zero_perm sem e_default cfg_fixed st true i = Ok st' -> ext st st'.
+  Lemma zero_perm_ext (st : state) i st' :
+    zero_perm sem e_default cfg_fixed st i = Ok st' -> ext st st'.
   Proof.
-    unfold zero_perm. cbn [negb andb d_zero_open cfg_fixed orb].
+    unfold zero_perm. cbn [d_zero_open cfg_fixed orb].
     destruct (get_prop st i) as [p|] eqn:Hg; [|discriminate].
-    destruct (h_zero (p_hdr p) && (p_status p =? ST_PROPOSED)) eqn:Ec; [|intro H; inversion H; apply ext_refl].
-    apply andb_true_iff in Ec. destruct Ec as [_ Ec]. apply N.eqb_eq in Ec.
-    intro H. eapply (conclude_good _ st i ST_APPROVED RS_ZERO p st' Hg); [unfold is_open; rewrite Ec; reflexivity | | exact H].
+    destruct (h_zero (p_hdr p) && (p_status p <? 2)) eqn:Ec; [|intro H; inversion H; apply ext_refl].
+    apply andb_true_iff in Ec. destruct Ec as [_ Ec].
+    intro H. eapply (conclude_good _ st i ST_APPROVED RS_ZERO p st' Hg); [exact Ec | | exact H].
     split; [left; reflexivity|]. split; [right; left; reflexivity|].
     unfold RS_ZERO, RS_NORMAL, RS_ELECTORATE. intros [Hx|Hx]; discriminate.
   Qed.
 
   Lemma zero_after_ext (st : state) i st' : zero_after sem e_default cfg_fixed st i = Ok st' -> ext st st'.
   Proof.
-    unfold zero_after. destruct (zero_perm sem e_default cfg_fixed st true i) as [s|c] eqn:Ez; [|discriminate].
-    intro H; inversion H; subst. eapply zero_perm_int_ext; exact Ez.
+    unfold zero_after. destruct (zero_perm sem e_default cfg_fixed st i) as [s|c] eqn:Ez; [|discriminate].
+    intro H; inversion H; subst. eapply zero_perm_ext; exact Ez.
   Qed.
-
-  Lemma zero_perm_ext_fails (st : state) i : zero_perm sem e_default cfg_fixed st false i = Fail 1.
-  Proof. reflexivity. Qed.
 
   Lemma withdraw_ext (st : state) c i st' : withdraw sem e_default cfg_fixed st c i = Ok st' -> ext st st'.
   Proof.
@@ -904,7 +901,7 @@ Section GovProofs.
     destruct o; simpl; intro H;
       try (apply ext_opext;
            first [ eapply reg_role_ext; exact H | eapply role_flow_ext; exact H | eapply reg_node_ext; exact H
-                 | eapply logout_node_ext; exact H | eapply withdraw_ext; exact H | eapply upd_strategy_ext; exact H
+                 | eapply logout_node_ext; exact H | eapply withdraw_ext; exact H | eapply zero_perm_ext; exact H | eapply upd_strategy_ext; exact H
                  | eapply unlock_obj_ext; exact H ]; fail);
       try discriminate.
     - eapply vote_opext; exact H.
@@ -1115,12 +1112,19 @@ Section GovProofs.
     unfold step. destruct (run E_eqb sem e_default cfg st o); intros H Hrc; inversion H; subst; [congruence | reflexivity].
   Qed.
 
-  (** direct calls by accounts to the methods reserved to manager contracts, and with the
-      repaired ZeroPermission also that one, are refused *)
-  Theorem guarded_refused (st : state) c i :
-    step E_eqb sem e_default cfg_fixed st (OZero c i) = (st, 1) /\
-    step E_eqb sem e_default cfg_fixed st (OGuarded c) = (st, 1).
-  Proof. split; reflexivity. Qed.
+  (** direct calls by accounts to the methods reserved to manager contracts are refused; the
+      repaired ZeroPermission does nothing to a proposal that is approved or rejected *)
+  Theorem guarded_refused cfg (st : state) c :
+    step E_eqb sem e_default cfg st (OGuarded c) = (st, 1).
+  Proof. reflexivity. Qed.
+
+  Theorem zero_permission_closed (st : state) c i p :
+    get_prop st i = Some p -> is_open p = false ->
+    step E_eqb sem e_default cfg_fixed st (OZero c i) = (st, 0).
+  Proof.
+    intros Hg Ho. unfold step, run, zero_perm. rewrite Hg. cbn [d_zero_open cfg_fixed orb].
+    unfold is_open in Ho. rewrite Ho, andb_false_r. reflexivity.
+  Qed.
 
   (** * Bookkeeping of the available electorate (partial): established at submission and
         preserved by a vote; its preservation across role changes is checked on every trace by
